@@ -1,6 +1,9 @@
 package main
 
-import "fmt"
+import (
+	"fmt"
+	"strings"
+)
 
 // Boundary-sized bodies: length prefixes change width when a body is 127/128 or
 // 16383/16384 bytes long. A body of exactly such a size only arises by
@@ -113,7 +116,63 @@ func (g *Gen) sample(cfg string, depth int) (*TyDef, *Val) {
 	if g.r.P(8) {
 		return g.boundaryCase(cfg)
 	}
+	if g.r.P(3) {
+		return g.protoEdge()
+	}
 	t := g.topType(depth)
 	b := 40
 	return t, g.Value(t, &b)
+}
+
+// protoEdge: the protobuf repeated form around its special cases: elements that write nothing by
+// themselves (nil pointers, zero times, empty strings and structs) and therefore get an empty
+// element, under field indexes with one-, two- and three-byte tags, nested so that the enclosing
+// struct is length-prefixed (its prefix is computed by Size, its body written by Append).
+func (g *Gen) protoEdge() (*TyDef, *Val) {
+	idx := g.r.Pick("1", "15", "16", "17", "2047", "2048", "70000")
+	el := Struct(F("A", "1", B("int")), F("S", "2", B("str")))
+	var et *TyDef
+	var mk func(k int) *Val
+	nilOr := func(v *Val, k int) *Val {
+		if k%2 == 1 {
+			return &Val{K: "p"}
+		}
+		return &Val{K: "p", P: v}
+	}
+	switch g.r.Intn(6) {
+	case 0:
+		et, mk = Ptr(B("str")), func(k int) *Val { return nilOr(&Val{K: "s", Data: []byte("x")}, k) }
+	case 1:
+		et, mk = Ptr(el), func(k int) *Val { return nilOr(&Val{K: "r", L: []*Val{{K: "i", I: int64(k)}, {K: "s"}}}, k) }
+	case 2:
+		et, mk = &TyDef{K: "time"}, func(k int) *Val {
+			if k%2 == 1 {
+				return zeroVal(&TyDef{K: "time"})
+			}
+			return &Val{K: "T", Sec: 1700000000 + int64(k), Nsec: 7}
+		}
+	case 3:
+		et, mk = B("str"), func(k int) *Val { return &Val{K: "s", Data: []byte(strings.Repeat("y", k%2))} }
+	case 4:
+		et, mk = el, func(k int) *Val { return &Val{K: "r", L: []*Val{{K: "i", I: int64(k % 2)}, {K: "s"}}} }
+	default:
+		et, mk = Ptr(&TyDef{K: "time"}), func(k int) *Val { return nilOr(zeroVal(&TyDef{K: "time"}), k) }
+	}
+	l := &Val{K: "l"}
+	for k, n := 0, 1+g.r.Intn(4); k < n; k++ {
+		l.L = append(l.L, mk(k+g.r.Intn(2)))
+	}
+	t := Struct(&FieldDef{Name: "L", Exported: true, Plenc: idx + ",proto", T: Slice(et)}, F("Z", "3", B("int")))
+	v := &Val{K: "r", L: []*Val{l, {K: "i", I: 5}}}
+	for d := 1 + g.r.Intn(2); d > 0; d-- {
+		switch g.r.Intn(3) {
+		case 0:
+			t, v = Struct(F("N", g.r.Pick("1", "16", "300"), t), F("T", "2", B("str"))), &Val{K: "r", L: []*Val{v, {K: "s", Data: []byte("tail")}}}
+		case 1:
+			t, v = Struct(F("S", "4", Slice(t))), &Val{K: "r", L: []*Val{{K: "l", L: []*Val{v, v}}}}
+		default:
+			t, v = Struct(F("M", "2", Map(B("str"), t))), &Val{K: "r", L: []*Val{{K: "m", M: [][2]*Val{{{K: "s", Data: []byte("k")}, v}}}}}
+		}
+	}
+	return t, v
 }
